@@ -644,6 +644,8 @@ class Interp(object):
                 fx = env.get('#facts', ())
                 if default is None:
                     self.require(hi - lo, '`%s(%s)` is never applied to an empty sequence' % (op, ast.unparse(e)[:50]), lineno, fx)
+                elif default == NEUTRAL[op]:
+                    pass        # the default is the neutral element: exactly what the reduction over an empty range denotes
                 else:
                     allf = self.facts + list(fx)
                     if not entails(allf, hi - lo):
@@ -988,6 +990,11 @@ def with_splits(run, facts=(), depth=0):
         if depth >= 9:
             raise Unknown('more than 9 nested case splits (%s)' % e)
         c = e.cond
+        # a case split is a statement about the whole evaluation: it may mention the bounds, the trace length and the evaluated position only.
+        # A condition on the index of an enclosing reduction or loop differs from iteration to iteration -- not a case of the operator
+        bound_syms = [s_ for s_ in getattr(c, 'c', {}) if s_ not in ('a', 'b', 'n', 't')]
+        if bound_syms:
+            raise Unknown('a case distinction on the loop index `%s` (condition %r) is not a case of the whole operator' % (bound_syms[0], c))
         return with_splits(run, list(facts) + [c], depth + 1) + with_splits(run, list(facts) + [-c - Aff.const(1)], depth + 1)
 
 
@@ -1407,6 +1414,13 @@ def summarize_online(ix, cls, facts=()):
     calls_reset = False
     listbuf = {}
     for st in init.node.body:
+        if isinstance(st, ast.Assign) and len(st.targets) == 1 and isinstance(st.targets[0], ast.Name):
+            # a local of the constructor (`size = self.end + 1`): an affine quantity over begin / end
+            try:
+                env[st.targets[0].id] = it.aff(st.value, env)
+                continue
+            except Unknown:
+                raise Unknown('constructor statement %s' % ast.unparse(st)[:50])
         if isinstance(st, ast.Assign) and len(st.targets) == 1 and isinstance(st.targets[0], ast.Attribute):
             nm = 'self.' + st.targets[0].attr
             v = st.value
